@@ -129,10 +129,10 @@ def model_input(case: str, out: str) -> str:
             toks.append(f"raise.{who}.{'e' if e[2] == 'exc' else 'b'}")
         elif k == "caught":
             toks.append(f"caught.{who}.{OUT.get(e[2], '?' + e[2])}")
-        elif k in ("tryok", "hang", "den", "dened", "dex", "dexed", "dprobe", "reentered", "refail", "yraise"):
+        elif k in ("tryok", "hang", "den", "dened", "dex", "dexed", "dprobe", "reentered", "refail", "yraise", "spawnerr"):
             pass    # disposables themselves are C02/C08; here only their effect on the group (enterfail / cleanup)
         elif k == "spawn":
-            toks.append(f"spawn.{who}.{e[2]}.{'s' if e[3] == 'spawn' else 'c'}")
+            toks.append(f"spawn.{who}.{e[2]}.{'s' if e[3] in ('spawn', 'factory') else 'c'}")
         elif k == "spawnfail":
             toks.append(f"spawnfail.{who}.{e[2]}")
         elif k == "check":
@@ -195,7 +195,7 @@ class View:
                     self.inherit[c] = vis
                     self.spawn_pos[c] = i
                     self.stack.setdefault(c, [])
-                    if e[3] == "spawn" and vis is not None:
+                    if e[3] in ("spawn", "factory") and vis is not None:
                         self.member_of[c] = vis
                         self.members.setdefault(vis, []).append(c)
                     else:
@@ -374,7 +374,7 @@ def monitor_c06(case: str, out: str) -> list[str]:
             b = v.visible_at[i]
             if v.stack_at.get(i) and v.stack_at[i][-1] == b and not group_member_failed(v, b, i):
                 fails.add("spawn.refused-in-open-scope")
-        elif k == "spawn" and e[3] == "spawn" and v.visible_at.get(i) is None:
+        elif k == "spawn" and e[3] in ("spawn", "factory") and v.visible_at.get(i) is None:
             c = int(e[2])
             evs = v.task_events(c)
             if not any(x[1] == "start" for _j, x in evs):
@@ -652,6 +652,10 @@ DIRECTED = [
     [_a(1, [["spawn", 1, "spawn", [["await", 1]]], ["raise", "exc"]], [[1, "ok", "swallow", []]]), ["await", 9]],
     [["try", [_a(1, [["spawn", 1, "spawn", [["await", 1]]], ["await", 2]], [[1, "ok", "swallow", []], [2, "ok", "ok", []]])]],
      ["await", 9]],
+    # ctx.spawn of a callable that raises a LookupError of its own before it hands over the coroutine: the spawn fails, nothing
+    # is started – in particular no detached task that would outlive the scope
+    [_a(1, [["spawn", 1, "factory", [["await", 1]]], ["probe", 1]]), ["probe", 2], ["await", 9]],
+    [_a(1, [["spawn", 1, "spawn", [["await", 1]]], ["spawn", 2, "factory", [["await", 2]]]]), ["await", 9]],
     # scope objects constructed ahead of their `async with` (`hold`): before the enclosing scope exists and entered inside
     # it – spawns in the enclosing body after the inner block still join the enclosing group; constructed inside a scope
     # that has ended and entered outside any scope – a spawn afterwards is detached, never refused
